@@ -35,6 +35,9 @@ pub enum IoAct {
     FillBuf,
     Consume(usize),
     Flush,
+    /// provided methods of std::io (an impl may override them): judged for allocations only (C17)
+    ReadExact(usize),
+    WriteAll(usize),
     ExtendRef(usize),
     PushBack,
     PushFront,
@@ -50,6 +53,8 @@ impl IoAct {
             IoAct::FillBuf => "fill_buf".into(),
             IoAct::Consume(m) => format!("consume({})", n(*m)),
             IoAct::Flush => "flush".into(),
+            IoAct::ReadExact(m) => format!("read_exact({})", n(*m)),
+            IoAct::WriteAll(m) => format!("write_all({})", n(*m)),
             IoAct::ExtendRef(m) => format!("extend_ref({})", n(*m)),
             IoAct::PushBack => "push_back".into(),
             IoAct::PushFront => "push_front".into(),
@@ -64,6 +69,8 @@ impl IoAct {
             IoAct::FillBuf => "fill_buf",
             IoAct::Consume(_) => "consume",
             IoAct::Flush => "flush",
+            IoAct::ReadExact(_) => "read_exact",
+            IoAct::WriteAll(_) => "write_all",
             IoAct::ExtendRef(_) => "extend_ref",
             IoAct::PushBack => "push_back",
             IoAct::PushFront => "push_front",
@@ -88,6 +95,10 @@ impl IoAct {
                     IoAct::Read(arg("read(")?)
                 } else if s.starts_with("consume(") {
                     IoAct::Consume(arg("consume(")?)
+                } else if s.starts_with("read_exact(") {
+                    IoAct::ReadExact(arg("read_exact(")?)
+                } else if s.starts_with("write_all(") {
+                    IoAct::WriteAll(arg("write_all(")?)
                 } else if s.starts_with("extend_ref(") {
                     IoAct::ExtendRef(arg("extend_ref(")?)
                 } else {
@@ -137,6 +148,10 @@ pub enum IoObs {
 }
 
 fn fresh_bytes(live: &[u8], m: usize) -> Vec<u8> {
+    if m > 200 {
+        // large inputs (extension capacities): deterministic, not necessarily distinct
+        return (0..m).map(|i| ((i * 7 + 3) % 251) as u8 + 1).collect();
+    }
     let mut v = vec![];
     let mut x = 1u8;
     while v.len() < m {
@@ -153,6 +168,20 @@ fn fresh_bytes(live: &[u8], m: usize) -> Vec<u8> {
     }
     // more than ~250 requested cannot happen (m <= 2N+1 <= 19)
     v
+}
+
+thread_local! {
+    /// heap allocation events observed strictly inside calls into the crate's I/O trait impls
+    pub static IO_ALLOCS: std::cell::Cell<u64> = const { std::cell::Cell::new(0) };
+}
+/// run one call into the crate and attribute allocations made during it
+#[inline(always)]
+fn mc<R>(f: impl FnOnce() -> R) -> R {
+    let a0 = crate::alloc::count();
+    let r = f();
+    let d = crate::alloc::count() - a0;
+    IO_ALLOCS.with(|c| c.set(c.get() + d));
+    r
 }
 
 #[cfg(feature = "eio-async")]
@@ -173,17 +202,17 @@ pub fn io_apply<const N: usize>(b: &mut B<N>, act: &IoAct, via: Via) -> IoObs {
             let data = fresh_bytes(&live, m);
             match via {
                 #[cfg(feature = "std")]
-                Via::Std => match std::io::Write::write(b, &data) {
+                Via::Std => match mc(|| std::io::Write::write(b, &data)) {
                     Ok(n) => IoObs::Count(n),
                     Err(e) => IoObs::Err(e.to_string()),
                 },
                 #[cfg(feature = "eio")]
-                Via::Eio => match embedded_io::Write::write(b, &data) {
+                Via::Eio => match mc(|| embedded_io::Write::write(b, &data)) {
                     Ok(n) => IoObs::Count(n),
                     Err(e) => IoObs::Err(format!("{:?}", e)),
                 },
                 #[cfg(feature = "eio-async")]
-                Via::EioAsync => match poll_once(embedded_io_async::Write::write(b, &data)) {
+                Via::EioAsync => match mc(|| poll_once(embedded_io_async::Write::write(b, &data))) {
                     Some(Ok(n)) => IoObs::Count(n),
                     Some(Err(e)) => IoObs::Err(format!("{:?}", e)),
                     None => IoObs::Pending,
@@ -194,17 +223,17 @@ pub fn io_apply<const N: usize>(b: &mut B<N>, act: &IoAct, via: Via) -> IoObs {
         }
         IoAct::Flush => match via {
             #[cfg(feature = "std")]
-            Via::Std => match std::io::Write::flush(b) {
+            Via::Std => match mc(|| std::io::Write::flush(b)) {
                 Ok(()) => IoObs::Unit,
                 Err(e) => IoObs::Err(e.to_string()),
             },
             #[cfg(feature = "eio")]
-            Via::Eio => match embedded_io::Write::flush(b) {
+            Via::Eio => match mc(|| embedded_io::Write::flush(b)) {
                 Ok(()) => IoObs::Unit,
                 Err(e) => IoObs::Err(format!("{:?}", e)),
             },
             #[cfg(feature = "eio-async")]
-            Via::EioAsync => match poll_once(embedded_io_async::Write::flush(b)) {
+            Via::EioAsync => match mc(|| poll_once(embedded_io_async::Write::flush(b))) {
                 Some(Ok(())) => IoObs::Unit,
                 Some(Err(e)) => IoObs::Err(format!("{:?}", e)),
                 None => IoObs::Pending,
@@ -216,11 +245,11 @@ pub fn io_apply<const N: usize>(b: &mut B<N>, act: &IoAct, via: Via) -> IoObs {
             let mut dst = vec![SENTINEL; d];
             let r: Result<usize, String> = match via {
                 #[cfg(feature = "std")]
-                Via::Std => std::io::Read::read(b, &mut dst).map_err(|e| e.to_string()),
+                Via::Std => mc(|| std::io::Read::read(b, &mut dst)).map_err(|e| e.to_string()),
                 #[cfg(feature = "eio")]
-                Via::Eio => embedded_io::Read::read(b, &mut dst).map_err(|e| format!("{:?}", e)),
+                Via::Eio => mc(|| embedded_io::Read::read(b, &mut dst)).map_err(|e| format!("{:?}", e)),
                 #[cfg(feature = "eio-async")]
-                Via::EioAsync => match poll_once(embedded_io_async::Read::read(b, &mut dst)) {
+                Via::EioAsync => match mc(|| poll_once(embedded_io_async::Read::read(b, &mut dst))) {
                     Some(r) => r.map_err(|e| format!("{:?}", e)),
                     None => return IoObs::Pending,
                 },
@@ -239,12 +268,12 @@ pub fn io_apply<const N: usize>(b: &mut B<N>, act: &IoAct, via: Via) -> IoObs {
         }
         IoAct::FillBuf => match via {
             #[cfg(feature = "std")]
-            Via::Std => match std::io::BufRead::fill_buf(b) {
+            Via::Std => match mc(|| std::io::BufRead::fill_buf(b)) {
                 Ok(s) => IoObs::Bytes(s.to_vec()),
                 Err(e) => IoObs::Err(e.to_string()),
             },
             #[cfg(feature = "eio")]
-            Via::Eio => match embedded_io::BufRead::fill_buf(b) {
+            Via::Eio => match mc(|| embedded_io::BufRead::fill_buf(b)) {
                 Ok(s) => IoObs::Bytes(s.to_vec()),
                 Err(e) => IoObs::Err(format!("{:?}", e)),
             },
@@ -260,15 +289,44 @@ pub fn io_apply<const N: usize>(b: &mut B<N>, act: &IoAct, via: Via) -> IoObs {
         IoAct::Consume(k) => {
             match via {
                 #[cfg(feature = "std")]
-                Via::Std => std::io::BufRead::consume(b, k),
+                Via::Std => mc(|| std::io::BufRead::consume(b, k)),
                 #[cfg(feature = "eio")]
-                Via::Eio => embedded_io::BufRead::consume(b, k),
+                Via::Eio => mc(|| embedded_io::BufRead::consume(b, k)),
                 #[cfg(feature = "eio-async")]
-                Via::EioAsync => embedded_io_async::BufRead::consume(b, k),
+                Via::EioAsync => mc(|| embedded_io_async::BufRead::consume(b, k)),
                 #[allow(unreachable_patterns)]
                 _ => return IoObs::Unavailable,
             }
             IoObs::Unit
+        }
+        IoAct::ReadExact(d) => {
+            let mut dst = vec![SENTINEL; d];
+            #[cfg(feature = "std")]
+            {
+                let r = mc(|| std::io::Read::read_exact(b, &mut dst));
+                return match r {
+                    Ok(()) => IoObs::Unit,
+                    Err(e) => IoObs::Err(format!("{:?}", e.kind())),
+                };
+            }
+            #[allow(unreachable_code)]
+            IoObs::Unavailable
+        }
+        IoAct::WriteAll(m) => {
+            let data = fresh_bytes(&live, m);
+            #[cfg(feature = "std")]
+            {
+                let r = mc(|| std::io::Write::write_all(b, &data));
+                return match r {
+                    Ok(()) => IoObs::Unit,
+                    Err(e) => IoObs::Err(format!("{:?}", e.kind())),
+                };
+            }
+            #[allow(unreachable_code)]
+            {
+                let _ = data;
+                IoObs::Unavailable
+            }
         }
         IoAct::ExtendRef(m) => {
             let data = fresh_bytes(&live, m);
@@ -303,6 +361,7 @@ pub fn io_model(cap: usize, v: &mut Vec<u8>, act: &IoAct) -> Option<IoObs> {
             Some(IoObs::Read(n, out, true))
         }
         IoAct::FillBuf => None,
+        IoAct::ReadExact(_) | IoAct::WriteAll(_) => None,
         IoAct::Consume(k) => {
             let n = k.min(v.len());
             v.drain(..n);
@@ -386,6 +445,11 @@ fn io_key<const N: usize>(b: &B<N>, cal: &Cal) -> Vec<u8> {
 }
 
 fn rebuild<const N: usize>(recipe: &[IoAct]) -> (Box<B<N>>, Vec<u8>) {
+    rebuild_via::<N>(recipe, default_via())
+}
+
+/// replay a history with its I/O steps going through the given trait family
+fn rebuild_via<const N: usize>(recipe: &[IoAct], via: Via) -> (Box<B<N>>, Vec<u8>) {
     let mut b: Box<B<N>> = Box::new(B::<N>::new());
     // normalise the unoccupied bytes left behind by the by-value constructor
     {
@@ -397,8 +461,7 @@ fn rebuild<const N: usize>(recipe: &[IoAct]) -> (Box<B<N>>, Vec<u8>) {
     }
     let mut model = vec![];
     for a in recipe {
-        // recipe steps always go through the route that exists in every configuration
-        let _ = io_apply(&mut b, a, default_via());
+        let _ = io_apply(&mut b, a, via);
         let _ = io_model(N, &mut model, a);
     }
     (b, model)
@@ -430,8 +493,13 @@ fn parse_recipe(s: &str) -> Option<Vec<IoAct>> {
 
 /// One checked I/O step from the state `recipe`: returns (observation, contents after, key after, problems)
 pub fn io_case<const N: usize>(recipe: &[IoAct], act: &IoAct, via: Via) -> (IoObs, Vec<u8>, Vec<u8>, Vec<String>, bool) {
+    io_case_routed::<N>(recipe, default_via(), act, via)
+}
+
+/// like `io_case`, with the history itself replayed through `history_via`
+pub fn io_case_routed<const N: usize>(recipe: &[IoAct], history_via: Via, act: &IoAct, via: Via) -> (IoObs, Vec<u8>, Vec<u8>, Vec<String>, bool) {
     let cal = calibrate::<N>();
-    let (mut b, mut model) = rebuild::<N>(recipe);
+    let (mut b, mut model) = rebuild_via::<N>(recipe, history_via);
     let pre: Vec<u8> = model.clone();
     let mut probs = vec![];
     let r = catch_unwind(AssertUnwindSafe(|| io_apply(&mut b, act, via)));
@@ -471,7 +539,32 @@ pub fn io_case<const N: usize>(recipe: &[IoAct], act: &IoAct, via: Via) -> (IoOb
         probs.push(format!("len() = {} but iter yields {}", b.len(), contents.len()));
     }
     let key = io_key(&b, &cal);
+    // what the call left behind, as far as later calls through the same trait family can see it
+    // (fill_buf is the one layout-dependent observer of the I/O traits)
+    FOLLOWUP.with(|f| {
+        let mut v = vec![];
+        if FOLLOWUP_ON.with(|o| o.get()) {
+            for a in [IoAct::FillBuf, IoAct::Write(1), IoAct::FillBuf, IoAct::Write(2), IoAct::FillBuf, IoAct::Write(N / 2 + 1), IoAct::FillBuf, IoAct::Read(1), IoAct::FillBuf, IoAct::Consume(1), IoAct::FillBuf] {
+                match catch_unwind(AssertUnwindSafe(|| io_apply(&mut b, &a, via))) {
+                    Ok(o) => v.push(o),
+                    Err(_) => v.push(IoObs::Err("panic".into())),
+                }
+            }
+        }
+        *f.borrow_mut() = v;
+    });
     (obs, contents, key, probs, false)
+}
+
+thread_local! {
+    static FOLLOWUP_ON: std::cell::Cell<bool> = const { std::cell::Cell::new(false) };
+    static FOLLOWUP: std::cell::RefCell<Vec<IoObs>> = const { std::cell::RefCell::new(Vec::new()) };
+}
+fn with_followup<R>(f: impl FnOnce() -> R) -> (R, Vec<IoObs>) {
+    FOLLOWUP_ON.with(|o| o.set(true));
+    let r = f();
+    FOLLOWUP_ON.with(|o| o.set(false));
+    (r, FOLLOWUP.with(|f| std::mem::take(&mut *f.borrow_mut())))
 }
 
 pub struct IoSpace {
@@ -603,6 +696,139 @@ pub fn c01_extend_ref<const N: usize>(rep: &mut Report) {
     }
 }
 
+/// C17 on the byte-I/O impls: no call into them allocates (incl. the provided methods read_exact / write_all,
+/// which an impl may override).  Only meaningful where std::io exists.
+pub fn c17_io<const N: usize>(rep: &mut Report) {
+    if !cfg!(feature = "std") {
+        return;
+    }
+    let sp = io_explore::<N>(Via::Std, |_, _, _, _, _, _| {});
+    let mut acts: Vec<IoAct> = io_alphabet(N).into_iter().filter(|a| a.is_io()).collect();
+    for d in 0..=N + 2 {
+        acts.push(IoAct::ReadExact(d));
+    }
+    for m in 0..=2 * N + 1 {
+        acts.push(IoAct::WriteAll(m));
+    }
+    let mut n = 0u64;
+    for r in &sp.recipes {
+        for act in &acts {
+            let (mut b, _) = rebuild::<N>(r);
+            IO_ALLOCS.with(|c| c.set(0));
+            let res = catch_unwind(AssertUnwindSafe(|| io_apply(&mut b, act, Via::Std)));
+            let allocs = IO_ALLOCS.with(|c| c.get());
+            n += 1;
+            if res.is_ok() && allocs > 0 {
+                rep.violation(Violation {
+                    sig: format!("N={}:io-{}:alloc", N, act.name()),
+                    detail: format!("N={} CircularBuffer<N,u8> state <{}> {}: {} heap allocation event(s) inside the call", N, show_recipe(r), act.show(), allocs),
+                    replay: ReplayCase { n: N, ctor: "new".into(), recipe: recipe_str(r), filling: "none".into(), act: act.show(), fault: "none".into(), extra: "io-alloc".into() },
+                });
+            }
+        }
+    }
+    rep.transitions += n;
+    rep.validated += n;
+    rep.evaluations += n;
+    rep.nontrivial += n / 2;
+    *rep.by_action.entry("byte I/O calls (allocation monitor)".into()).or_insert(0) += n;
+}
+
+pub fn replay_io_alloc<const N: usize>(c: &Case) -> Result<i32, String> {
+    let recipe = parse_recipe(&c.recipe).ok_or("bad recipe")?;
+    let act = IoAct::parse(&c.act).ok_or("bad action")?;
+    let (mut b, _) = rebuild::<N>(&recipe);
+    IO_ALLOCS.with(|c| c.set(0));
+    let o = io_apply(&mut b, &act, Via::Std);
+    let allocs = IO_ALLOCS.with(|c| c.get());
+    println!("N={} state <{}> {} -> {:?}; {} allocation event(s) inside the call", N, show_recipe(&recipe), act.show(), o, allocs);
+    if allocs > 0 {
+        println!("VIOLATION REPRODUCED: the call allocated");
+    }
+    Ok((allocs > 0) as i32)
+}
+
+/// Extension capacities far above the core range (thresholds like "more than 256 bytes"): a boundary-value
+/// grid instead of a fixpoint — front rotations {0, 1, N/2, N-1} x lengths {0, 1, 2, N/2, N-1, N} x every
+/// I/O action with sizes {0, 1, 2, 255, 256, 257, N-1, N, N+1, 2N+1, usize::MAX where meaningful}.
+pub fn io_large<const N: usize>(prop: &str, rep: &mut Report) {
+    let sizes: Vec<usize> = {
+        let mut v = vec![0, 1, 2, 15, 16, 17, 255, 256, 257, N / 2, N - 1, N, N + 1, 2 * N + 1];
+        v.sort();
+        v.dedup();
+        v
+    };
+    let mut acts = vec![IoAct::FillBuf, IoAct::Flush, IoAct::Consume(MAXI)];
+    for &m in &sizes {
+        acts.push(IoAct::Write(m));
+        acts.push(IoAct::Read(m));
+        acts.push(IoAct::Consume(m));
+    }
+    let mut vias = vec![];
+    if cfg!(feature = "eio") {
+        vias.push(Via::Eio);
+    }
+    if cfg!(feature = "eio-async") {
+        vias.push(Via::EioAsync);
+    }
+    let mut states = 0u64;
+    for rot in [0usize, 1, N / 2, N - 1] {
+        for len in [0usize, 1, 2, N / 2, N - 1, N] {
+            // history: move the front to `rot`, then hold `len` bytes
+            let mut r: Vec<IoAct> = vec![];
+            if rot > 0 {
+                r.push(IoAct::Write(rot));
+                r.push(IoAct::Consume(rot));
+            }
+            if len > 0 {
+                r.push(IoAct::Write(len));
+            }
+            states += 1;
+            for act in &acts {
+                crate::set_case(&format!("n={}|ctor=new|recipe={}|filling=none|act={}|fault=none|extra=std::io", N, recipe_str(&r), act.show()));
+                let (o0, c0, _k0, p0, _) = io_case::<N>(&r, act, Via::Std);
+                rep.transitions += 1;
+                rep.validated += 1;
+                rep.evaluations += 1;
+                rep.nontrivial += 1;
+                rep.action(act.name());
+                rep.outcomes.insert(fnv_of(&(act.name(), format!("{:?}", o0).len(), c0.len())));
+                if prop == "C14" {
+                    for p in &p0 {
+                        let kind = if p.contains("panicked") { "panic" } else if p.contains("returned") { "return" } else { "contents" };
+                        io_violation(rep, prop, N, &r, act, Via::Std, kind, p);
+                    }
+                    continue;
+                }
+                for &via in &vias {
+                    let (o1, c1, _k1, _p1, _) = io_case_routed::<N>(&r, via, act, via);
+                    rep.transitions += 1;
+                    rep.validated += 1;
+                    if matches!(o1, IoObs::Err(_) | IoObs::Pending) {
+                        io_violation(rep, prop, N, &r, act, via, "fails", &format!("{:?}", o1));
+                    } else if o0 != o1 {
+                        io_violation(rep, prop, N, &r, act, via, "return-differs", &format!("std::io returned {:?}, {} returned {:?}", short(&o0), via.name(), short(&o1)));
+                    } else if c0 != c1 {
+                        io_violation(rep, prop, N, &r, act, via, "contents-differ", "contents after the call differ between std::io and the embedded trait");
+                    }
+                }
+            }
+        }
+    }
+    rep.states += states;
+    rep.fixpoint = false;
+    rep.notes.push(format!("N={}: extension capacity, boundary-value grid ({} histories x {} actions), not a fixpoint", N, states, acts.len()));
+}
+
+fn short(o: &IoObs) -> String {
+    let s = format!("{:?}", o);
+    if s.len() > 160 {
+        format!("{}…", &s[..160])
+    } else {
+        s
+    }
+}
+
 /// C16: from every state of the I/O space, every I/O action through std::io and through the
 /// embedded trait(s) compiled into this build: identical observation, contents and memory image.
 pub fn c16_check<const N: usize>(_o: &Opts, rep: &mut Report) {
@@ -628,10 +854,14 @@ pub fn c16_check<const N: usize>(_o: &Opts, rep: &mut Report) {
     rep.expected_layouts = if N == 0 { 1 } else { (N * N + 1) as u64 };
     for r in &sp.recipes {
         for act in io_alphabet(N).into_iter().filter(|a| a.is_io()) {
-            let (o0, c0, _k0, p0, _) = io_case::<N>(r, &act, Via::Std);
+            let ((o0, c0, _k0, p0, _), f0) = with_followup(|| io_case::<N>(r, &act, Via::Std));
             for &via in &vias {
                 crate::set_case(&format!("n={}|ctor=new|recipe={}|filling=none|act={}|fault=none|extra={}", N, recipe_str(r), act.show(), via.name()));
-                let (o1, c1, _k1, p1, _) = io_case::<N>(r, &act, via);
+                let ((o1, c1, _k1, p1, _), f1) = with_followup(|| io_case::<N>(r, &act, via));
+                if o0 == o1 && c0 == c1 && f0 != f1 {
+                    let at = f0.iter().zip(f1.iter()).position(|(a, b)| a != b).unwrap_or(0);
+                    io_violation(rep, "C16", N, r, &act, via, "after-effect-differs", &format!("same result and contents, but what the call leaves behind differs: follow-up step {} (fill_buf / write(1) / fill_buf / write(2) / fill_buf / ...) gives {:?} after std::io and {:?} after {}", at, f0.get(at), f1.get(at), via.name()));
+                }
                 rep.transitions += 1;
                 rep.validated += 1;
                 rep.evaluations += 1;
@@ -653,12 +883,23 @@ pub fn c16_check<const N: usize>(_o: &Opts, rep: &mut Report) {
                 } else if p0.is_empty() && !p1.is_empty() {
                     io_violation(rep, "C16", N, r, &act, via, "model", &p1.join("; "));
                 }
+                // the same history driven through the embedded traits from the start: whatever they leave
+                // behind internally must not become visible through later calls (e.g. fill_buf)
+                let (o2, c2, _k2, _p2, _) = io_case_routed::<N>(r, via, &act, via);
+                rep.transitions += 1;
+                rep.validated += 1;
+                if !matches!(o2, IoObs::Unavailable) && (o0 != o2 || c0 != c2) {
+                    io_violation(rep, "C16", N, r, &act, via, "history-differs", &format!("whole history through std::io: {:?} contents {:?}; whole history through {}: {:?} contents {:?}", o0, c0, via.name(), o2, c2));
+                }
             }
         }
     }
 }
 
 pub fn replay_io<const N: usize>(c: &Case) -> Result<i32, String> {
+    if c.extra == "io-alloc" {
+        return replay_io_alloc::<N>(c);
+    }
     let recipe = parse_recipe(&c.recipe).ok_or("bad recipe")?;
     let act = IoAct::parse(&c.act).ok_or("bad action")?;
     let via = match c.extra.as_str() {
@@ -676,8 +917,15 @@ pub fn replay_io<const N: usize>(c: &Case) -> Result<i32, String> {
             code = 1;
         }
     } else {
-        let (o1, c1, k1, _p1, _) = io_case::<N>(&recipe, &act, via);
+        let (_, f0) = with_followup(|| io_case::<N>(&recipe, &act, Via::Std));
+        let ((o1, c1, k1, _p1, _), f1) = with_followup(|| io_case::<N>(&recipe, &act, via));
         println!("  {}: {:?} contents after {:?}", via.name(), o1, c1);
+        if f0 != f1 {
+            println!("  follow-up observations after std::io: {:?}", f0);
+            println!("  follow-up observations after {}: {:?}", via.name(), f1);
+            println!("VIOLATION REPRODUCED: what the call leaves behind differs between the two trait families");
+            return Ok(1);
+        }
         if matches!(o1, IoObs::Unavailable) {
             return Err("that trait family is not compiled into this build".into());
         }
